@@ -32,6 +32,18 @@ class SymStream:
         self.bytes_read += len(chunk)
         return SymBytes.make(chunk)
 
+    def readinto(self, buf):
+        self._count()
+        n = len(buf)
+        chunk = self.items[self.pos:self.pos + n]
+        if not all(isinstance(i, int) for i in chunk):
+            from .core import Unsupported
+            raise Unsupported('readinto() of symbolic bytes into a real buffer')
+        self.pos += len(chunk)
+        self.bytes_read += len(chunk)
+        buf[:len(chunk)] = bytes(chunk)
+        return len(chunk)
+
     def seek(self, off, whence=0):
         if isinstance(off, SymInt):
             off = off.__index__()
